@@ -13,7 +13,7 @@ Section ConcReclaim.
   Definition after_frees (a : list cev) : list nat :=
     flat_map (fun e => match e with CFree c => [c] | _ => [] end) a.
   Definition mop_blocks (m : mop) : list nat :=
-    match m with MWrite _ _ (Some c) _ => [c] | MRmwInternal _ a => after_frees a | _ => [] end.
+    match m with MWrite _ _ _ (Some c) _ => [c] | MRmwInternal _ a => after_frees a | _ => [] end.
   Definition cont_blocks (c : list mop) : list nat := flat_map mop_blocks c.
   Definition thr_blocks (ths : list thread) : list nat := flat_map (fun t => cont_blocks (t_cont t)) ths.
   Definition blocks_of (torn : bool) (sl : list (pos * selem)) (ths : list thread) : list nat :=
@@ -246,7 +246,7 @@ Section ConcReclaim.
     assert (PA : Permutation (blocks_of (c_torn s) (c_slots s) (c_threads s))
                              ((if c_torn s then [] else [0%nat]) ++ slot_blocks (c_slots s) ++ cont_blocks (m :: rest) ++ R)).
     { unfold blocks_of. do 2 apply Permutation_app_head. exact P1. }
-    destruct m as [p i first keep|p i cand keep|delta after|h|r|r report|tb p i|p o]; cbn [exec_mop].
+    destruct m as [p i rt first keep|p i off cand keep|delta after|h|r|r report|tb p i|p o]; cbn [exec_mop].
     - (* MRead *)
       destruct (slot_lookup (c_slots s) (i :: p)) as [e|] eqn:L; [|destruct (child_is_node g p i)];
         cbn [fst upd_thread c_torn c_slots c_live c_freed c_next c_threads].
